@@ -64,7 +64,7 @@ META = {
         "voxel sizes are float32-representable: the code converts `voxel` with torch.tensor(voxel) (float32) "
         "whatever the dtype of the cloud, so the grid of a float64 cloud is the float32-rounded one",
         "knn: dim = -1 (the default) only (another `dim` is used by the code for both the norm and topk and has no model); "
-        "sorted=False has no model either: the harness checks it on the real code as a set (k smallest / largest, any order); "
+        "sorted=False: the model (knnApiS, knn_unsorted_spec) fixes the answer as a multiset, compared in any order; "
         "the values torch.topk returns are compared with the distances at the returned indices by the harness only; rows of ref "
         "and nbr have one common width (knn_api_spec)",
         "entry points at degenerate sizes (voxel=[], pdim=0 or width-0 points, the empty cloud (0, D)) are outside the property's "
@@ -137,6 +137,19 @@ class Jobs:
                 items[i][2](st, toks)
 
 
+def nonfinite(ctx, case, label, *tensors):
+    """class 38: every value the real code returns for a finite valid input is tested for finiteness BEFORE it goes to the
+    Lean driver or into a tolerance comparison; a NaN / inf result is a failure with the input as replay. (The only
+    specified non-finite results are the overflowing quotients `p / tiny` of homo2cart / point2pixel at a clamped weight —
+    those two checks compare against the overflowing expectation instead.)"""
+    for t_ in tensors:
+        if isinstance(t_, torch.Tensor) and (t_.is_floating_point() or t_.is_complex()) and not bool(torch.isfinite(t_).all()):
+            bad = (~torch.isfinite(t_)).nonzero()[0].tolist()
+            ctx.fail(case, f"{label}-non-finite: non-finite result ({t_[tuple(bad)].item()!r} at {bad}) for a finite valid input")
+            return True
+    return False
+
+
 def far(a, b, tol):
     """elementwise 'differs by more than tol' that is TRUE for NaN / inf (a NaN must never pass a comparison)"""
     return ~((a - b).abs() <= tol)
@@ -166,6 +179,7 @@ import types
 STYLES = ["kw", "kw", "min", "pos", "mix", "kwreq"]
 GMODES = [None] * 6 + ["req", "nograd", "inference", "graph", "param", "subclass"]
 _STATE = {"backward": False}
+GRAD_FINITE = {"nbr_filter", "random_filter", "voxel_filter", "pixel2point", "knn_filter"}   # selection / linear in the input
 
 
 class UserCloud(torch.Tensor):
@@ -215,6 +229,10 @@ def styled(name, style, req, opt):
         for q_ in outs_:
             if q_.is_floating_point() and q_.requires_grad and q_.numel() > 0:
                 q_.sum().backward(retain_graph=True)
+        for a_ in req:
+            if isinstance(a_, torch.Tensor) and a_.is_leaf and a_.grad is not None and not bool(torch.isfinite(a_.grad).all()) \
+                    and name in GRAD_FINITE:
+                raise FloatingPointError(f"non-finite gradient of {name} with respect to its input")
     return detach_all(r)
 
 
@@ -600,6 +618,8 @@ def check_knn(ctx: Ctx, case, jobs: Jobs | None = None) -> bool:
         res = mon.call("knn", KNN, ref, nbr)
         vals_o, idx_o = res.values, res.indices
         vals, idx = vals_o.clone(), idx_o.clone()
+        if nonfinite(ctx, case, "knn", vals):
+            return False
     except Exception as e:
         ctx.fail(case, f"knn-raises: knn raises on a valid call: {type(e).__name__}: {str(e)[:120]}")
         return False
@@ -640,7 +660,8 @@ def check_knn(ctx: Ctx, case, jobs: Jobs | None = None) -> bool:
                     return False
         # model
         if jobs is not None and b < case.get("model_items", 1):
-            line = (f"c18.api.knn {U.ord_tok(o)} {1 if largest else 0} {k} {case['pdim']} {case['N']} {case['N2']} "
+            # sorted=False: the model of the unsorted entry point (knnApiS, knn_unsorted_spec) fixes the answer as a multiset
+            line = (f"c18.api.{'knn' if is_sorted else 'knnu'} {U.ord_tok(o)} {1 if largest else 0} {k} {case['pdim']} {case['N']} {case['N2']} "
                     + cloud_tokens(ref_items[b]) + " " + cloud_tokens(nbr_items[b]))
             unamb = [row_unambiguous(rows[i], d[i], k, largest, tol, exact) for i in range(case["N"])]
 
@@ -652,13 +673,17 @@ def check_knn(ctx: Ctx, case, jobs: Jobs | None = None) -> bool:
                 mv = nums(toks[:n])
                 mi = [int(t) for t in toks[n:]]
                 for i in range(case["N"]):
+                    av, mvi = vals_b[i].tolist(), mv[i * k:(i + 1) * k]
+                    ai, mii = idx_b[i].tolist(), mi[i * k:(i + 1) * k]
+                    if not is_sorted:                   # any order: compare as multisets (NaN sorts nowhere: sfar catches it)
+                        av, mvi, ai, mii = sorted(av), sorted(mvi), sorted(ai), sorted(mii)
                     for t in range(k):
-                        a, m = float(vals_b[i, t]), mv[i * k + t]
-                        if is_sorted and sfar(a, m, tol * max(abs(a), abs(m))):
-                            ctx.disagree("knn", case, f"batch {b} row {i} rank {t}: value {a!r} model {m!r}")
+                        a, m = av[t], mvi[t]
+                        if sfar(a, m, tol * max(abs(a), abs(m))):
+                            ctx.disagree("knn", case, f"batch {b} row {i} rank {t}: value {a!r} model {m!r} (sorted={is_sorted})")
                             return
-                    if is_sorted and unamb[i] and idx_b[i].tolist() != mi[i * k:(i + 1) * k]:
-                        ctx.disagree("knn", case, f"batch {b} row {i}: indices {idx_b[i].tolist()} model {mi[i*k:(i+1)*k]}")
+                    if unamb[i] and ai != mii:
+                        ctx.disagree("knn", case, f"batch {b} row {i}: indices {ai} model {mii} (sorted={is_sorted})")
                         return
             jobs.add(case["N"] * case["N2"], line, cb)
     if ok and not owns_memory(ctx, case, "knn", [vals_o, idx_o], [ref, nbr], lambda: (lambda r_: [r_.values, r_.indices])(KNN(ref, nbr))):
@@ -702,6 +727,9 @@ def check_knn(ctx: Ctx, case, jobs: Jobs | None = None) -> bool:
             d = d.tolist()
             for ii, i in enumerate(sr):
                 if not is_sorted:
+                    if not torch.allclose(v2[b, ii].sort().values, vals2[b, i].sort().values, rtol=tol, atol=0):
+                        ctx.fail(case, f"knn-equivariance: the set of values of reference {i} changes under a permutation of the clouds (sorted=False)")
+                        return False
                     continue
                 if not torch.allclose(v2[b, ii], vals2[b, i], rtol=tol, atol=0):
                     ctx.fail(case, f"knn-equivariance: values of reference {i} change under a permutation of the clouds")
@@ -783,6 +811,8 @@ def check_nbr(ctx: Ctx, case, jobs: Jobs | None = None) -> bool:
         return False
     if out.dtype != X.dtype or not U.rows_equal(out, X.detach()[mask]) or not U.rows_equal(out2, out):
         ctx.fail(case, "nbr-select: output is not points[mask] (with and without return_mask)")
+        return False
+    if nonfinite(ctx, case, "nbr", out, out2):
         return False
     out_keep, mask_keep = out.clone(), mask.clone()
     if not owns_memory(ctx, case, "nbr", [out, mask, out2], [X], lambda: list(NBR(X, True))):
@@ -949,6 +979,8 @@ def check_voxel(ctx: Ctx, case, jobs: Jobs | None = None) -> bool:
             return False
         if mon.mutations:
             ctx.fail(case, "voxel-mutates: voxel_filter changed its argument")
+            return False
+        if nonfinite(ctx, case, "voxel", out):
             return False
         if tuple(out.shape) != (M, D) or out.dtype != X.dtype:
             ctx.fail(case, f"voxel-count: {tuple(out.shape)} {out.dtype} returned, the cloud occupies {M} voxels (D={D})")
@@ -1134,6 +1166,8 @@ def check_knnf(ctx: Ctx, case, jobs: Jobs | None = None) -> bool:
         return False
     if mon.mutations:
         ctx.fail(case, "knnf-mutates: knn_filter changed its argument")
+        return False
+    if nonfinite(ctx, case, "knnf", out):
         return False
     if out.dtype != x.dtype:
         ctx.fail(case, f"knnf-shape: dtype {out.dtype} returned for a {x.dtype} cloud")
@@ -1634,7 +1668,7 @@ def check_camera(ctx: Ctx, case, jobs: Jobs | None = None) -> bool:
                     mv = nums(toks)
                     tl = float(tolu[b, i].sum()) * 2 + 64 * eps * float(pixB[b, i].abs().sum())
                     for c in range(len(mv)):
-                        if abs(mv[c] - float(e1B[b, i, c])) > tl:
+                        if sfar(mv[c], float(e1B[b, i, c]), tl):
                             ctx.disagree("camera", case, f"reprojerr({red}) item {b},{i}: implementation {e1B[b, i].tolist()} model {mv}")
                             return
                 jobs.add(1, line, cb)
@@ -1650,6 +1684,8 @@ def check_camera(ctx: Ctx, case, jobs: Jobs | None = None) -> bool:
             P3 = p3_keep
         except Exception as e:
             ctx.fail(case, f"camera-raises: pixel2point / point2pixel raise on a valid call: {type(e).__name__}: {str(e)[:120]}")
+            return False
+        if nonfinite(ctx, case, "camera", P3):
             return False
         if P3.dtype != T or back.dtype != T:
             ctx.fail(case, f"camera-shape: pixel2point / point2pixel return dtype {P3.dtype} / {back.dtype} for {T} input "
